@@ -168,6 +168,7 @@ func init() {
 		p := advProfile(merge(noBare, map[string]int{"garbage": 30, "hugeView": 20, "mutate": 50, "vcGames": 10, "crossInstance": 6, "support": 10, "badBlock": 6, "corruptNested": 25, "wrapLen": 12}), 350, 2)(th)
 		p.Tail, p.TailQuiet, p.TailProp, p.NoRejects = true, true, "C12", true
 		p.LenientValidators = true
+		p.NilBlocks = true // a correct leader whose factory has nothing to propose (no block, live context): the round must survive it
 		return p
 	},
 		QuickCases: 4000, ThoroughCases: 80000,
@@ -176,7 +177,7 @@ func init() {
 		},
 		Rule:   "sim: hostile prefix (random / truncated / bit-flipped / length-corrupted bytes, extreme views and heights, empty ids and proofs, missing blocks, field mutations, replays) delivered at PRNG-chosen points to real worker loops; a panic escaping the worker, or recovered by it while handling a message the reference decoder reads completely, is a violation; then a quiet stabilised tail in which the attacked nodes must commit (bounded progress). rt: the same kinds of input through HandleConsensusMessage / ValidateBlockConsensus / GetMemberIdsFromBlockProof of a running node (race detector on): no panic reaches the supervising loops, the victim keeps committing. non-trivial (sim) = more than 5 hostile inputs and a judged tail",
 		Floors: map[string]int{"adv garbage": 5000, "adv hugeView": 3000, "adv mutate": 10000, "C05 tails judged": 1500, "C05 tails with commit": 1500},
-		Judged: []string{"adv garbage", "adv hugeView", "adv mutate", "adv wrapLen", "delivered adversarial", "C05 tails judged", "C05 tails with commit", "C12 malformed messages dropped after a parser panic", "C12 storage probes after a recovered panic"},
+		Judged: []string{"adv garbage", "adv hugeView", "adv mutate", "adv wrapLen", "delivered adversarial", "C05 tails judged", "C05 tails with commit", "C12 malformed messages dropped after a parser panic", "C12 storage probes after a recovered panic", "block factory returned no block under a live context"},
 		Extra: func(run *harness.Run) ([]harness.Finding, map[string]interface{}, []string) {
 			fs, ev, inc := rtPart(run, "hostile", 32, 1200, map[string]int{"C12 hostile inputs": 2000, "C12 victims judged for progress": 16})
 			// differential script: valid traffic with malformed messages inserted, also in front of the cached valid ones
